@@ -34,6 +34,7 @@ RULE = (
     "the set of import statements of the client changed; distinct by case; histogram by stage and import forms."
 )
 ASSUMPTIONS = [
+    "the client does not use a submodule that a starred import of a package binds only by accident (empty __init__, submodule loaded by some other import before)",
     "every import statement of the original client succeeds when executed on its own (clients with a failing import, guarded by try or not, are outside the domain and counted)",
     "objects are module-level functions and tuples of the generated modules and stdlib objects: identity is stable once the module is loaded",
     "the client is formatted with RESULT preserved in whole-pipeline stages (it is the observation channel)",
@@ -80,13 +81,13 @@ def build_tree(P, M, M2, core_all, init_kind, sub_init_kind, plain_kind):
     }[plain_kind]
     other = (f"def alpha():\n    return '{M2}.alpha'\n\n\ndef beta():\n    return '{M2}.beta'\n\n\ndef delta():\n    return '{M2}.delta'\n\n\n"
              f"def zeta():\n    return '{M2}.zeta'\n\n\nKAPPA = ('{M2}', 'KAPPA')\n")
-    extra = (f"from .core import alpha, KAPPA as KAPPA2\nfrom . import core\nfrom .sub.deep import delta as delta2\n\n\n"
+    extra = (f"import {M2}\nimport json as js\nfrom .core import alpha, KAPPA as KAPPA2\nfrom . import core\nfrom .sub.deep import delta as delta2\n\n\n"
              f"def theta():\n    return '{P}.extra.theta'\n")
     files = {f"{P}/extra.py": extra, f"{P}/__init__.py": init, f"{P}/core.py": core, f"{P}/sub/__init__.py": sub_init, f"{P}/sub/deep.py": deep, f"{M}.py": plain, f"{M2}.py": other}
     return files, {"init": init_kind, "sub_init": sub_init_kind, "plain": plain_kind, "core_all": bool(core_all)}
 
 
-def import_items(P, M, M2, relative):
+def import_items(P, M, M2, relative, init_kind="named"):
     """(statement, [use expressions], form class) candidates; the uses are guarded at run time, see client()."""
     items = [
         (f"import {P}", [f"{P}.core.alpha", f"{P}.alpha", f"{P}.gamma"], "import-package"),
@@ -102,13 +103,19 @@ def import_items(P, M, M2, relative):
         (f"from {P}.core import alpha as a1", ["a1"], "from-import-as"),
         (f"from {P}.core import *", ["alpha", "beta", "gamma", "KAPPA"], "star"),
         (f"from {P}.sub.deep import *", ["delta", "epsilon", "LAMBDA", "beta"], "star"),
-        (f"from {P} import *", ["alpha", "beta", "gamma", "core", "alpha2"], "star-package"),
+        # (with an empty __init__ the package has a 'core' attribute only if something else happened to import the
+        #  submodule before: such accidental bindings are not used by the client)
+        (f"from {P} import *", ["alpha", "beta", "gamma", "alpha2"] + ([] if init_kind == "empty" else ["core"]), "star-package"),
         (f"from {P} import alpha", ["alpha"], "reexport-init"),
         (f"from {P} import alpha2", ["alpha2"], "reexport-init"),
         (f"from {P} import gamma", ["gamma"], "reexport-init"),
         (f"from {M} import alpha", ["alpha"], "reexport-chain"),
         (f"from {M} import delta, zeta", ["delta", "zeta"], "reexport-chain"),
         (f"from {M} import *", ["alpha", "zeta", "delta", "KAPPA"], "star-chain"),
+        (f"from {P}.core import os as oz", ["oz.sep", "oz.path.join"], "reexport-plain-import"),
+        (f"from {P}.core import os", ["os.sep"], "reexport-plain-import"),
+        (f"from {P}.extra import {M2} as other", ["other.zeta", "other.alpha"], "reexport-plain-import"),
+        (f"from {P}.extra import js as jsn", ["jsn.dumps"], "reexport-plain-import"),
         (f"from {P}.extra import alpha, theta", ["alpha", "theta"], "reexport-relative"),
         (f"from {P}.extra import KAPPA2, delta2, core", ["KAPPA2", "delta2", "core.beta"], "reexport-relative"),
         (f"from {P}.extra import *", ["alpha", "theta", "KAPPA2"], "star-chain"),
@@ -160,7 +167,7 @@ def cases(draw):
     P, M, M2 = f"vq{uid:06x}p", f"vq{uid:06x}m", f"vq{uid:06x}o"
     files, tree_info = tree_files(draw, P, M, M2)
     relative = draw(st.sampled_from([0, 0, 0, 0, 0, 0, 1, 2]))  # 0: client at the tree root, 1: inside the package, 2: inside the sub-package
-    items = import_items(P, M, M2, relative)
+    items = import_items(P, M, M2, relative, tree_info["init"])
     chosen = draw(st.lists(st.sampled_from(items), min_size=1, max_size=5))
     lines = ["RESULT = []", ""]
     forms = set()
